@@ -25,6 +25,16 @@ func (c01) Gen(r *Rng, tier string, emit func(string, Tok)) {
 		period, ops := muxManyPackets(r, tier)
 		emit("many-packets", muxCaseTok(period, c01NoPackets(ops)))
 	}
+	// long histories: automatic PID assignment swept past the PMT PID with the PIDs next to it occupied; a PID added
+	// again after many other removals
+	{
+		period, ops := muxAutoSweep(r, tier, 0xf20)
+		emit("auto-pid-sweep", muxCaseTok(period, c01NoPackets(ops)))
+		for _, n := range []int{64, 256, 1024} {
+			period, ops := muxReAddAfterMany(r, tier, n+r.Intn(3))
+			emit("add-again-after-many-removals", muxCaseTok(period, c01NoPackets(ops)))
+		}
+	}
 	// payload lengths around every k*184 +/- header / adaptation field boundary, with and without a first-packet
 	// adaptation field, video (unbounded) and audio (bounded) stream ids
 	for _, st := range []astits.StreamType{astits.StreamTypeH264Video, astits.StreamTypeAACAudio} {
@@ -158,6 +168,9 @@ func (c01) Oracle(c Tok, obs Tok) string {
 					// automatically assigned: read it back from the state snapshot
 					pids := cl.st.PMTPIDs
 					pid = pids[len(pids)-1]
+					if reservedPID(pid) {
+						return fmt.Sprintf("call %d: AddElementaryStream assigned PID %#x automatically, the PID of a table: its units cannot be demultiplexed", i, pid)
+					}
 				}
 				streams = append(streams, es{pid, o.es.StreamType})
 			}
